@@ -56,3 +56,8 @@ def witness(script, outname, build_first):
     if p.returncode != 0:
         raise RuntimeError("witness %s failed: %s" % (script, p.stderr[-1500:]))
     open(os.path.join(GEN, outname), "w").write(p.stdout)
+
+
+def c06_sites():
+    """Scope access sites of cypher/models/pgsql/translate with the provenance of their identifier argument."""
+    goext("c06", "C06Sites.lean")
